@@ -4,10 +4,10 @@ CONSTANTS
   DstLists <- DLNoDup
   Dsts <- Dsts123
   IAs <- IA12
-  MaxN = 2
+  MaxN = 1
   Delays <- D024
-  Horizon = 13
-  MaxUpd = 5
+  Horizon = 10
+  MaxUpd = 4
   KeepOnFail = FALSE
   Dedup = FALSE
   GenLen = 0
